@@ -95,6 +95,7 @@ DMatch(rs, p) == Dfs(rs, <<>>, Segments(p), {})
 -----------------------------------------------------------------------------
 (* sink prefixes: a compiled regular expression matched at the START of the path; the NAMED groups that
    took part in the match arrive as keyword arguments, unnamed groups never do.  Pattern language (tokens):
+     flags    (first token only) the flags of the expression, see SinkMatch
      lit      literal text
      digits   (?P<name>\d+)          seg    (?P<name>[^/]+)          named groups (s = the name)
      udigits  (\d+)                  useg   ([^/]+)                  the same, unnamed
@@ -120,6 +121,7 @@ OptText(tok) == SplitOn(tok.s, BAR)[1]
 OptName(tok) == SplitOn(tok.s, BAR)[2]
 WellFormedSink(pat) ==
     \A i \in 1..Len(pat) :
+        /\ pat[i].k = "flags" => i = 1
         /\ pat[i].k \in OptKinds => (i = Len(pat) /\ (pat[i].k = "optrest" \/ (pat[i].s # <<>> /\ Head(pat[i].s) = SLASH)))
         /\ ((pat[i].k \in RunKinds \cup OptNamedKinds) /\ i < Len(pat)) =>
                \/ pat[i + 1].k \in OptKinds \cup OptNamedKinds
@@ -133,36 +135,48 @@ RECURSIVE RunLen(_, _, _)
 RunLen(p, i, digitsOnly) ==          \* length of the maximal run of group characters from 1-based position i
     IF i > Len(p) \/ p[i] = SLASH \/ (digitsOnly /\ ~IsDigit(p[i])) THEN 0 ELSE 1 + RunLen(p, i + 1, digitsOnly)
 
+(* case folding for IGNORECASE (ASCII letters) *)
+Fold(c) == IF c >= 65 /\ c <= 90 THEN c + 32 ELSE c
+FoldText(t) == [j \in 1..Len(t) |-> Fold(t[j])]
+At(p, d, i, ci) == IF ci THEN i + Len(d) <= Len(p) /\ FoldText(Slice(p, i, i + Len(d))) = FoldText(d) ELSE IsAt(p, d, i)
+
 NoSink == [found |-> FALSE, kw |-> {}]
-RECURSIVE SinkFrom(_, _, _, _)
-SinkFrom(pat, p, i, kw) ==           \* i: 0-based offset into p
+RECURSIVE SinkFromF(_, _, _, _, _)
+SinkFromF(pat, p, i, kw, ci) ==      \* i: 0-based offset into p; ci: literal text is compared ignoring case
     IF pat = <<>> THEN [found |-> TRUE, kw |-> kw]
     ELSE LET tok == Head(pat)
          IN  CASE tok.k = "lit" ->
-                    (IF IsAt(p, tok.s, i) THEN SinkFrom(Tail(pat), p, i + Len(tok.s), kw) ELSE NoSink)
+                    (IF At(p, tok.s, i, ci) THEN SinkFromF(Tail(pat), p, i + Len(tok.s), kw, ci) ELSE NoSink)
                [] tok.k \in RunKinds ->
                     LET r == RunLen(p, i + 1, tok.k \in {"digits", "udigits"})
                     IN  IF r = 0 THEN NoSink
-                        ELSE SinkFrom(Tail(pat), p, i + r,
-                                      IF tok.k \in NamedKinds THEN kw \cup {[n |-> tok.s, v |-> Slice(p, i, i + r)]} ELSE kw)
+                        ELSE SinkFromF(Tail(pat), p, i + r,
+                                       IF tok.k \in NamedKinds THEN kw \cup {[n |-> tok.s, v |-> Slice(p, i, i + r)]} ELSE kw, ci)
                [] tok.k = "ualt" ->
                     LET A == SplitOn(tok.s, BAR)
-                        H == {x \in 1..Len(A) : IsAt(p, A[x], i)}
+                        H == {x \in 1..Len(A) : At(p, A[x], i, ci)}
                     IN  IF H = {} THEN NoSink
-                        ELSE SinkFrom(Tail(pat), p, i + Len(A[CHOOSE x \in H : TRUE]), kw)
+                        ELSE SinkFromF(Tail(pat), p, i + Len(A[CHOOSE x \in H : TRUE]), kw, ci)
                [] tok.k = "optlit" ->           \* takes part or not: the named groups before it are delivered either way
-                    SinkFrom(Tail(pat), p, IF IsAt(p, tok.s, i) THEN i + Len(tok.s) ELSE i, kw)
+                    SinkFromF(Tail(pat), p, IF At(p, tok.s, i, ci) THEN i + Len(tok.s) ELSE i, kw, ci)
                [] tok.k = "optrest" ->
-                    (IF i = Len(p) \/ p[i + 1] = SLASH THEN SinkFrom(Tail(pat), p, Len(p), kw) ELSE NoSink)
+                    (IF i = Len(p) \/ p[i + 1] = SLASH THEN SinkFromF(Tail(pat), p, Len(p), kw, ci) ELSE NoSink)
                [] tok.k \in OptNamedKinds ->
                     LET lit  == OptText(tok)
                         j    == i + Len(lit)
-                        r    == IF IsAt(p, lit, i) THEN RunLen(p, j + 1, tok.k \in {"optndig", "optcdig"}) ELSE 0
+                        r    == IF At(p, lit, i, ci) THEN RunLen(p, j + 1, tok.k \in {"optndig", "optcdig"}) ELSE 0
                         with == IF r = 0 THEN NoSink
-                                ELSE SinkFrom(Tail(pat), p, j + r, kw \cup {[n |-> OptName(tok), v |-> Slice(p, j, j + r)]})
+                                ELSE SinkFromF(Tail(pat), p, j + r, kw \cup {[n |-> OptName(tok), v |-> Slice(p, j, j + r)]}, ci)
                     IN  IF with.found THEN with
-                        ELSE SinkFrom(Tail(pat), p, i, kw \cup {[n |-> OptName(tok), v |-> NONE]})
-SinkMatch(pat, p) == SinkFrom(pat, p, 0, {})
+                        ELSE SinkFromF(Tail(pat), p, i, kw \cup {[n |-> OptName(tok), v |-> NONE]}, ci)
+(* the matcher of a sink is its pattern WITH its flags: a first token [k |-> "flags", s |-> letters] carries the flags
+   of a precompiled expression (or an inline (?i)); "i" (105) = IGNORECASE changes what matches; VERBOSE / DOTALL / ASCII
+   change only how the same pattern is written and are forms the harness rotates over *)
+HasFlags(pat) == pat # <<>> /\ Head(pat).k = "flags"
+IgnoreCase(pat) == HasFlags(pat) /\ \E j \in 1..Len(Head(pat).s) : Head(pat).s[j] = 105
+Body(pat) == IF HasFlags(pat) THEN Tail(pat) ELSE pat
+SinkFrom(pat, p, i, kw) == SinkFromF(pat, p, i, kw, FALSE)
+SinkMatch(pat, p) == SinkFromF(Body(pat), p, 0, {}, IgnoreCase(pat))
 GroupNames(pat) == {pat[i].s : i \in {j \in 1..Len(pat) : pat[j].k \in NamedKinds}}
                    \cup {OptName(pat[i]) : i \in {j \in 1..Len(pat) : pat[j].k \in OptNamedKinds}}
 
